@@ -38,6 +38,7 @@
 import PyTough.Model.GeoFile
 import PyTough.Proofs.GeoFileFixpoint2
 import PyTough.Proofs.GeoFileNames
+import PyTough.Proofs.GeoFileSizes
 
 namespace Props.C03
 open Py Model Model.GeoFile
@@ -171,20 +172,22 @@ theorem names_lists_preserved (g g' : Geo) (hwf : WF g = true) (hst : StableSurf
 /-! ### second generation -/
 
 /-- **Write, read, write.**  Writing the re-read geometry reproduces the first file byte for byte.
-    `_partial`: (1) `LayerCentresKept g` — without it the statement is false, see
-    `second_file_differs` (KNOWN FINDING layer-centre-zero-recomputed); (2) `SizesStable g` — that the
-    two `10.2e` header sizes print identically after rounding is evaluated per geometry, not proved
-    for all values (the `10.2f` fields need no such hypothesis: `Proofs.GeoFile.textF_roundF`). -/
-theorem geo_write_fixpoint_partial (g : Geo) (hwf : WF g = true) (hk : LayerCentresKept g = true)
-    (hs : SizesStable g = true) :
+    `_partial`: the hypothesis `LayerCentresKept g` is necessary — without it the statement is false,
+    see `second_file_differs` (KNOWN FINDING layer-centre-zero-recomputed).  Nothing else is assumed:
+    every `10.2f` / `10.1f` / `10.2e` field reprints identically because rounding is idempotent. -/
+theorem geo_write_fixpoint_partial (g : Geo) (hwf : WF g = true) (hk : LayerCentresKept g = true) :
     ∃ t g', write g = .ok t ∧ GeoFile.read t = .ok g' ∧ write g' = .ok t := by
   obtain ⟨t, hw, hr⟩ := geo_roundtrip g hwf
   obtain ⟨L, LL, s, w⟩ := Proofs.GeoFile.wfp_of hwf
+  have hs := Proofs.GeoFile.sizesStable_of_fits g w.hdr.vol w.hdr.conn
   exact ⟨t, canonGeo g, hw, hr, by rw [Proofs.GeoFile.write_canon w hk hs, hw]⟩
 
-/-- a number that already has `p` decimals is printed as itself: rounding is idempotent -/
-theorem rounding_idempotent (p : Nat) (hp : 0 < p) (x : Flt) : roundF p (roundF p x) = roundF p x :=
-  Proofs.GeoFile.roundF_idem p hp x
+/-- a number that already has `p` decimals (resp. `p+1` significant digits) is printed as itself:
+    sign and digits of the rounded value are those of the value -/
+theorem rounding_idempotent (p : Nat) (hp : 0 < p) (x : Flt) :
+    roundF p (roundF p x) = roundF p x ∧
+    (roundE p x).isNeg = x.isNeg ∧ fmtEParts p (roundE p x).absNum (roundE p x).den = fmtEParts p x.absNum x.den :=
+  ⟨Proofs.GeoFile.roundF_idem p hp x, Proofs.GeoFile.roundE_parts p x⟩
 
 /-! ### feet -/
 
